@@ -54,7 +54,10 @@ func vSplit(s string) []string {
 
 // vDoc builds a nondeterministic document. Parameters (vParam): N, A, names,
 // pool; optional prefixes, uris.
-func vDoc() *symDoc {
+func vDoc() *symDoc { return vDocNamed("") }
+
+// vDocNamed: a second, independent document uses input names with a suffix.
+func vDocNamed(sfx string) *symDoc {
 	N := vParamInt("N")
 	A := vParamInt("A")
 	doc := &symDoc{N: N, A: A}
@@ -104,21 +107,21 @@ func vDoc() *symDoc {
 			continue
 		}
 		si := strconv.Itoa(i)
-		doc.d[i] = vInt("d"+si, 0, N-1)
-		doc.kind[i] = vInt("k"+si, 1, 4) // 1 element, 3 text, 4 comment
+		doc.d[i] = vInt("d"+si+sfx, 0, N-1)
+		doc.kind[i] = vInt("k"+si+sfx, 1, 4) // 1 element, 3 text, 4 comment
 		ok = vAnd(ok, doc.kind[i] != 2)
-		doc.name[i] = vInt("nm"+si, 0, len(doc.names)-1)
-		doc.pfx[i] = vInt("px"+si, 0, len(doc.prefixes)-1)
-		doc.uri[i] = vInt("ur"+si, 0, len(doc.uris)-1)
-		doc.val[i] = vInt("v"+si, 0, len(doc.pool)-1)
-		doc.nattr[i] = vInt("na"+si, 0, A)
+		doc.name[i] = vInt("nm"+si+sfx, 0, len(doc.names)-1)
+		doc.pfx[i] = vInt("px"+si+sfx, 0, len(doc.prefixes)-1)
+		doc.uri[i] = vInt("ur"+si+sfx, 0, len(doc.uris)-1)
+		doc.val[i] = vInt("v"+si+sfx, 0, len(doc.pool)-1)
+		doc.nattr[i] = vInt("na"+si+sfx, 0, A)
 
 		for a := 0; a < A; a++ {
 			sa := si + "_" + strconv.Itoa(a)
-			doc.aname[i][a] = vInt("an"+sa, 0, len(doc.names)-1)
-			doc.apfx[i][a] = vInt("ap"+sa, 0, len(doc.prefixes)-1)
-			doc.auri[i][a] = vInt("au"+sa, 0, len(doc.uris)-1)
-			doc.aval[i][a] = vInt("av"+sa, 0, len(doc.pool)-1)
+			doc.aname[i][a] = vInt("an"+sa+sfx, 0, len(doc.names)-1)
+			doc.apfx[i][a] = vInt("ap"+sa+sfx, 0, len(doc.prefixes)-1)
+			doc.auri[i][a] = vInt("au"+sa+sfx, 0, len(doc.uris)-1)
+			doc.aval[i][a] = vInt("av"+sa+sfx, 0, len(doc.pool)-1)
 			for b := 0; b < a; b++ {
 				// attribute names of one element are distinct (expanded names)
 				ok = vAnd(ok, vOr(doc.aname[i][a] != doc.aname[i][b], doc.apfx[i][a] != doc.apfx[i][b]))
